@@ -36,12 +36,12 @@ func parseDotLabel(label string, i int) (items, reds []string, err error) {
 		return nil, nil, fmt.Errorf("node state_%d has label %q", i, label)
 	}
 	rest := label[len(head):]
-	end := strings.Index(rest, "}")
+	end := dotIndex(rest, '}')
 	if end < 0 {
 		return nil, nil, fmt.Errorf("node state_%d: unbalanced label %q", i, label)
 	}
 	itemsPart, tail := rest[:end], rest[end+1:]
-	for _, s := range strings.Split(itemsPart, "|") {
+	for _, s := range dotSplit(itemsPart, '|') {
 		k := strings.Index(s, "-\\>")
 		if k < 0 {
 			return nil, nil, fmt.Errorf("node state_%d: item %q without arrow", i, s)
@@ -52,7 +52,7 @@ func parseDotLabel(label string, i int) (items, reds []string, err error) {
 			continue
 		}
 		body = strings.ReplaceAll(body, "•", " • ")
-		body = strings.ReplaceAll(strings.ReplaceAll(body, "\\<", "<"), "\\>", ">")
+		body = dotUnescape(body)
 		dot := -1
 		syms := []string{}
 		for _, w := range strings.Fields(body) {
@@ -71,8 +71,8 @@ func parseDotLabel(label string, i int) (items, reds []string, err error) {
 		if !strings.HasPrefix(tail, "|{") || !strings.HasSuffix(tail, "}") {
 			return nil, nil, fmt.Errorf("node state_%d: unexpected label tail %q", i, tail)
 		}
-		for _, s := range strings.Split(tail[2:len(tail)-1], "|") {
-			s = strings.ReplaceAll(strings.ReplaceAll(s, "\\<", "<"), "\\>", ">")
+		for _, s := range dotSplit(tail[2:len(tail)-1], '|') {
+			s = dotUnescape(s)
 			k := strings.LastIndex(s, ": reduce rule at ")
 			if k < 0 {
 				return nil, nil, fmt.Errorf("node state_%d: bad annotation %q", i, s)
@@ -83,6 +83,47 @@ func parseDotLabel(label string, i int) (items, reds []string, err error) {
 	sort.Strings(items)
 	sort.Strings(reds)
 	return items, reds, nil
+}
+
+// --- DOT record labels: { } | < > and the double quote are written with a backslash when they are text
+
+// dotIndex returns the index of the first unescaped occurrence of ch in s, or -1.
+func dotIndex(s string, ch byte) int {
+	for i := 0; i < len(s); i++ {
+		if s[i] == '\\' {
+			i++
+			continue
+		}
+		if s[i] == ch {
+			return i
+		}
+	}
+	return -1
+}
+
+// dotSplit splits s at every unescaped sep.
+func dotSplit(s string, sep byte) []string {
+	var res []string
+	for {
+		k := dotIndex(s, sep)
+		if k < 0 {
+			return append(res, s)
+		}
+		res = append(res, s[:k])
+		s = s[k+1:]
+	}
+}
+
+// dotUnescape removes the backslash of every escaped character.
+func dotUnescape(s string) string {
+	var sb strings.Builder
+	for i := 0; i < len(s); i++ {
+		if s[i] == '\\' && i+1 < len(s) {
+			i++
+		}
+		sb.WriteByte(s[i])
+	}
+	return sb.String()
 }
 
 var denseRowRe = regexp.MustCompile(`(?m)^/\* (\d+) \*/ \{([-0-9,\t ]*)\},$`)
@@ -134,6 +175,7 @@ func c18CLIRun(seed int64, idx int) (o Outcome) {
 	} else {
 		g = gen.RandUsable(r, stdCfg)
 	}
+	c18Printable(g)
 	g.NoAction = true
 	text := render.Render(g, plainParts, render.Options{})
 	o = Outcome{Status: "held", Replay: map[string]interface{}{"grammar": text}}
@@ -229,7 +271,7 @@ func c18CLIRun(seed int64, idx int) (o Outcome) {
 	gotEdges := map[string]int{}
 	for _, e := range gr.Edges.Edges {
 		l := strings.TrimSuffix(strings.TrimPrefix(e.Attrs["label"], "\""), "\"")
-		l = strings.TrimSpace(strings.ReplaceAll(strings.ReplaceAll(l, "\\<", "<"), "\\>", ">"))
+		l = strings.TrimSpace(dotUnescape(l))
 		gotEdges[fmt.Sprintf("%s->%s:%s", e.Src, e.Dst, l)]++
 	}
 	for k, c := range wantEdges {
